@@ -110,27 +110,28 @@ TKINDS = ("translate", "rotate", "scale", "mirror")
 
 
 @st.composite
-def origins(draw, allow_none: bool):
+def origins(draw, allow_none: bool, none_weight: int = 1):
     """mostly a general point away from 0; sometimes exactly 0; the default origin where it is well defined"""
     k = draw(st.integers(0, 11))
     if k == 0:
         return [0.0, 0.0, 0.0]
-    if k == 11 and allow_none:
+    if k > 11 - none_weight and allow_none:
         return None
     return draw(point3_nz(10))
 
 
 @st.composite
-def tf_one(draw, kind: str, default_origin_ok: bool, composed: bool = False):
-    via = draw(st.sampled_from(["m", "l"]))
+def tf_one(draw, kind: str, default_origin_ok: bool, composed: bool = False, via: Optional[str] = None):
+    via = via or draw(st.sampled_from(["m", "l"]))
+    nw = 3 if composed else 1  # default origins in the middle of a sequence: the center has moved by then
     if kind == "translate":
         return {"k": kind, "via": via, "d": draw(st.one_of(point3_nz(10), point3_nz(10), point3(10)))}
     if kind == "rotate":
         ang = draw(fl(0.05, 6.2)) * draw(st.sampled_from([1, -1]))
-        return {"k": kind, "via": via, "angle": ang, "axis": draw(direction()), "origin": draw(origins(default_origin_ok))}
+        return {"k": kind, "via": via, "angle": ang, "axis": draw(direction()), "origin": draw(origins(default_origin_ok, nw))}
     if kind == "scale":
         lim = math.log(2.0) if composed else math.log(5.0)
-        return {"k": kind, "via": via, "ratio": math.exp(draw(fl(-lim, lim))), "origin": draw(origins(default_origin_ok))}
+        return {"k": kind, "via": via, "ratio": math.exp(draw(fl(-lim, lim))), "origin": draw(origins(default_origin_ok, nw))}
     if kind == "mirror":
         # origin None is documented as [0, 0, 0] for every class
         return {"k": kind, "via": via, "normal": draw(direction()), "origin": draw(origins(True))}
@@ -138,12 +139,38 @@ def tf_one(draw, kind: str, default_origin_ok: bool, composed: bool = False):
 
 
 @st.composite
+def list_of_default_origins(draw):
+    """one transform([...]) call of three items: a default-origin Rotation/Scaling, an item that moves the center
+    (a Translation, or a Rotation/Scaling about a far explicit origin), another default-origin Rotation/Scaling:
+    the second default origin is the center as it is by then"""
+    def centred(kind):
+        t = draw(tf_one(kind, False, composed=True, via="l"))
+        t["origin"] = None
+        return t
+
+    first = centred(draw(st.sampled_from(["rotate", "scale"])))
+    last = centred(draw(st.sampled_from(["rotate", "scale"])))
+    kind = draw(st.sampled_from(["translate", "rotate", "scale"]))
+    mover = draw(tf_one(kind, False, composed=True, via="l"))
+    if kind == "translate":
+        mover["d"] = [c if abs(c) > 0.5 else 2.5 for c in mover["d"]]
+    else:
+        mover["origin"] = [c + (6.0 if c >= 0 else -6.0) for c in draw(point3(4))]  # |origin| >= 6 per coordinate
+        if kind == "scale" and abs(mover["ratio"] - 1) < 0.2:
+            mover["ratio"] = 1.5
+    return [first, mover, last]
+
+
+@st.composite
 def tf_list(draw, tkind: str, default_origin_ok: bool):
     if tkind in TKINDS:
         return [draw(tf_one(tkind, default_origin_ok))]
     if tkind == "compose":
+        if default_origin_ok and draw(st.integers(0, 3)) == 0:
+            return draw(list_of_default_origins())
         n = draw(st.integers(2, 3))
-        return [draw(tf_one(draw(st.sampled_from(TKINDS)), default_origin_ok, composed=True)) for _ in range(n)]
+        via = draw(st.sampled_from([None, None, "l", "m"]))  # mixed | one transform([...]) call | chained methods
+        return [draw(tf_one(draw(st.sampled_from(TKINDS)), default_origin_ok, composed=True, via=via)) for _ in range(n)]
     if tkind == "copy":
         return [draw(tf_one(draw(st.sampled_from(TKINDS)), default_origin_ok))]
     raise ValueError(tkind)
@@ -172,7 +199,6 @@ class Applied:
         self.s = 1.0
         self.parity = 0
         self.mirrors = 0
-        self.inverting_mirrors = 0  # mirror steps documented to swap bottom and top (see INVERTS)
         self.normals_unit = True
         self.default_origin = False
         self.kinds: List[str] = []
@@ -183,13 +209,7 @@ def _arr(x):
     return None if x is None else np.array(x, dtype=float)
 
 
-# which mirror steps swap bottom and top face of the operations (Operation.mirror docstring; Operation.transform
-# warns that it does not): receiver is an Operation -> method calls only; receiver holds operations -> every mirror;
-# faces, edge data and sketches are put into lofts by the harness -> never
-INVERTS = {"op": "method", "shape": "always", "stack": "always", "joint": "always"}
-
-
-def apply_tf(ent, tf: List[dict], facts: dict) -> Applied:
+def apply_tf(ent, tf: List[dict], facts: dict, center_covariant: bool = True) -> Applied:
     """Applies the steps to `ent` through the library (by method or as transform([...]) groups of consecutive
     'l' steps), with numpy arrays as arguments; checks that the arrays are left bit-identical."""
     out = Applied()
@@ -198,12 +218,16 @@ def apply_tf(ent, tf: List[dict], facts: dict) -> Applied:
         group = [tf[i]]
         if tf[i]["via"] == "l":
             while i + len(group) < len(tf) and tf[i + len(group)]["via"] == "l":
-                group.append(tf[i + len(group)])
+                nxt = tf[i + len(group)]
+                if not center_covariant and nxt["k"] in ("rotate", "scale") and nxt["origin"] is None:
+                    break  # its default origin has to be read just before the step (see below)
+                group.append(nxt)
         needs_center = any(t["k"] in ("rotate", "scale") and t["origin"] is None for t in group)
         center = None
         if needs_center:
             # documented default origin: the entity's center.  transform() re-reads it before every element of the
             # list; a center is a point of the entity, so after the first j elements it is their image of `center`
+            # (not so for joints: JointBase.center is a corner of a top face, and mirroring swaps bottom and top)
             center = np.array(ent.center, dtype=float)
             if center.shape != (3,):
                 raise Violation("center-not-a-point", f"center is {center!r}", **facts)
@@ -264,9 +288,6 @@ def apply_tf(ent, tf: List[dict], facts: dict) -> Applied:
             out.s *= s
             out.parity ^= par
             out.mirrors += par
-            how = INVERTS.get(facts.get("family"), "never")
-            if par and (how == "always" or (how == "method" and t["via"] == "m")):
-                out.inverting_mirrors += 1
             out.kinds.append(t["k"])
             out.vias.append(t["via"])
         i += len(group)
@@ -574,10 +595,10 @@ def compare(g0: Geo, g1: Geo, ap: Applied, shared: Optional[set] = None, pos_tol
                 out.append(Disc("projection-changed", f"block {bi} corner {i}: {g0.proj[bi][mp[i]]} -> {g1.proj[bi][i]}"))
                 break
         for c1, c2 in PAIRS12:
-            k1, l1 = g1.wires[bi][frozenset((c1, c2))]
-            k0, l0 = g0.wires[bi][frozenset((mp[c1], mp[c2]))]
             if (bi, c1) in badset or (bi, c2) in badset:
                 continue
+            k1, l1 = g1.wires[bi][frozenset((c1, c2))]
+            k0, l0 = g0.wires[bi][frozenset((mp[c1], mp[c2]))]
             if k0 == "line" and k1 == "line" and abs(l1 - s * l0) > len_tol * s * l0 + 1e-12:
                 out.append(Disc("edge-length", f"block {bi} line {c1}-{c2}: length {l1} != {s} * {l0}", edge_kind="line"))
     # curved edges, matched by location
@@ -629,16 +650,10 @@ def _compare_edge(r0: dict, r1: dict, ap: Applied, tol: float, swapped: bool, le
         side = np.cross(normal, b - a)
         same_side = float((p - a) @ side) * float((third - a) @ side) > 0
         if off_r > ARC_TOL * radius + tol or off_n > ARC_TOL * radius + tol or not same_side:
-            # a reflected axis with the same angle turns the other way; swapping bottom and top reverses side edges,
-            # which turns them back
-            cause = None
-            as_documented = swapped == bool(ap.inverting_mirrors % 2)
-            if kind == "angle" and as_documented and (ap.parity ^ int(swapped and r0["loc"] == "side")):
-                cause = "angle-sense-under-mirror"
             return Disc(
                 "arc-shape", f"{where}: third point {p} is {'on the other side of the chord' if not same_side else 'off the circle'}"
                 f" (image of the original arc: centre {centre}, radius {radius:.6g}, through {third}; radial error {off_r:.3g}, "
-                f"out of plane {off_n:.3g})", cause=cause, radial_error=off_r, same_side=bool(same_side), **base,
+                f"out of plane {off_n:.3g})", radial_error=off_r, same_side=bool(same_side), **base,
             )
         if kind == "angle":
             want = rm.unit(rm.apply_dir(M, r0["axis"]))
@@ -653,19 +668,10 @@ def _compare_edge(r0: dict, r1: dict, ap: Applied, tol: float, swapped: bool, le
         ptol = tol if kind in PT_KINDS else CURVE_TOL * nrm(b - a)
         if r1["pts"].shape != ref.shape or _maxerr(r1["pts"], ref) > ptol:
             if r1["pts"].shape == ref.shape and _maxerr(r1["pts"], ref[::-1]) <= ptol:
-                as_documented = swapped == bool(ap.inverting_mirrors % 2)
-                cause = "side-edge-kept-order-after-invert" if (r0["loc"] == "side" and swapped and rev and as_documented) else None
-                return Disc("point-order-reversed", f"{where}: control points run from the edge's second vertex to its first",
-                            cause=cause, **base)
-            cause = None
-            point_based = kind in PT_KINDS or r0.get("curve_type") in ("DiscreteCurve", "LinearInterpolatedCurve", "SplineInterpolatedCurve")
-            if ap.parity and not ap.normals_unit and point_based:
-                cause = "array-mirror-non-unit-normal"
-            elif ap.parity and r0.get("curve_type") == "CircleCurve":
-                cause = "circle-sense-under-mirror"
+                return Disc("point-order-reversed", f"{where}: control points run from the edge's second vertex to its first", **base)
             return Disc("control-points", f"{where}: control points differ from the image of the original ones by "
                         f"{_maxerr(r1['pts'], ref) if r1['pts'].shape == ref.shape else 'shape'} (first {r1['pts'][0]} vs {ref[0]})",
-                        cause=cause, **base)
+                        **base)
         if r1["repr"] != r0["repr"]:
             return Disc("edge-kind-changed", f"{where}: representation {r0['repr']} -> {r1['repr']}", **base)
     elif kind == "project":
@@ -673,7 +679,16 @@ def _compare_edge(r0: dict, r1: dict, ap: Applied, tol: float, swapped: bool, le
             return Disc("projection-changed", f"{where}: labels {r0['labels']} -> {r1['labels']}", **base)
     ltol = len_tol if kind != "curve" else 10 * CURVE_TOL
     if abs(r1["length"] - s * r0["length"]) > ltol * s * r0["length"] + 1e-12:
-        return Disc("edge-length", f"{where}: length {r1['length']} != {s} * {r0['length']}", **base)
+        cause = None
+        if kind in ARC_KINDS and rev and r0["valid"]:
+            # arc_length_3point (a transcription of OpenFOAM's test) depends on the direction of a reflex arc whose
+            # third point lies more than pi from the start: the same arc, reversed by Operation.invert, gets another length
+            try:
+                if rm.arc_angle_through(r0["v1"], r0["third"], r0["v2"])[0] > math.pi:
+                    cause = "reflex-arc-length-depends-on-direction"
+            except ValueError:
+                pass
+        return Disc("edge-length", f"{where}: length {r1['length']} != {s} * {r0['length']}", cause=cause, reversed=rev, **base)
     return None
 
 
@@ -719,7 +734,7 @@ class Ent:
 
     def __init__(self, name: str, family: str, strategy, build: Callable, realize: Optional[Callable] = None,
                  prep: Optional[Callable] = None, default_origin_ok: bool = True, curved: Callable = lambda p: True,
-                 quick: int = 30, labels: Callable = lambda p: []):
+                 quick: int = 30, labels: Callable = lambda p: [], center_covariant: bool = True):
         self.name = name
         self.family = family
         self.strategy = strategy
@@ -730,6 +745,7 @@ class Ent:
         self.curved = curved
         self.quick = quick
         self.labels = labels
+        self.center_covariant = center_covariant
 
 
 ENTS: Dict[str, Ent] = {}
@@ -817,7 +833,7 @@ def _edge_labels(specs) -> List[str]:
 
 for _k in [None, *EDGE_KINDS, "mixed"]:
     _reg(Ent(f"face-{_k or 'line'}", "face", face_params(_k), build_face, realize_face, prep_face,
-             curved=_face_curved, quick=24 if _k in ("oncurve", "mixed") else 36, labels=lambda p: ["closing-edge"] * (p["edges"][3] is not None) + _edge_labels(p["edges"])))
+             curved=_face_curved, quick=18 if _k in ("oncurve", "mixed") else 28, labels=lambda p: ["closing-edge"] * (p["edges"][3] is not None) + _edge_labels(p["edges"])))
 
 
 @st.composite
@@ -846,7 +862,7 @@ def realize_edge(data, M, aux):
 
 for _k in EDGE_KINDS:
     _reg(Ent(f"edge-{_k}", "edge", edge_params(_k), build_edge, realize_edge, prep_edge, default_origin_ok=False,
-             curved=lambda p: spec_curved(p["edge"]), quick=24 if _k == "oncurve" else 36,
+             curved=lambda p: spec_curved(p["edge"]), quick=18 if _k == "oncurve" else 28,
              labels=lambda p: ["closing-edge"] * (p["i"] == 3) + _edge_labels([p["edge"]])))
 
 
@@ -888,7 +904,7 @@ def _loft_labels(p):
 
 for _k in EDGE_KINDS:
     _reg(Ent(f"loft-{_k}", "op", loft_params(_k), build_loft, curved=lambda p: any(spec_curved(e) for e in p["edges"]),
-             quick=20 if _k == "oncurve" else 36, labels=_loft_labels))
+             quick=14 if _k == "oncurve" else 28, labels=_loft_labels))
 
 
 @st.composite
@@ -906,7 +922,7 @@ def build_extrude(params):
     return cb.Extrude(face, amount)
 
 
-_reg(Ent("extrude", "op", extrude_params(), build_extrude, curved=_face_curved, quick=30, labels=lambda p: _edge_labels(p["edges"])))
+_reg(Ent("extrude", "op", extrude_params(), build_extrude, curved=_face_curved, quick=24, labels=lambda p: _edge_labels(p["edges"])))
 
 
 @st.composite
@@ -929,7 +945,7 @@ def build_revolve(params):
     return cb.Revolve(face, params["angle"], fr.d([1, 0, 0]) * params["axis_mag"], fr.p([params["shift"], 0, 0]))
 
 
-_reg(Ent("revolve", "op", revolve_params(), build_revolve, quick=40, labels=lambda p: _edge_labels(p["edges"])))
+_reg(Ent("revolve", "op", revolve_params(), build_revolve, quick=30, labels=lambda p: _edge_labels(p["edges"])))
 
 
 def build_wedge(params):
@@ -939,7 +955,7 @@ def build_wedge(params):
     return cb.Wedge(face, params["angle"])
 
 
-_reg(Ent("wedge", "op", revolve_params(wedge=True), build_wedge, quick=40, labels=lambda p: _edge_labels(p["edges"])))
+_reg(Ent("wedge", "op", revolve_params(wedge=True), build_wedge, quick=28, labels=lambda p: _edge_labels(p["edges"])))
 
 
 @st.composite
@@ -948,7 +964,7 @@ def box_params(draw):
     return {"a": a, "b": [a[i] + draw(fl(0.3, 3.0)) * draw(st.sampled_from([1, -1])) for i in range(3)]}
 
 
-_reg(Ent("box", "op", box_params(), lambda p: cb.Box(p["a"], p["b"]), quick=40))
+_reg(Ent("box", "op", box_params(), lambda p: cb.Box(p["a"], p["b"]), quick=24))
 
 
 @st.composite
@@ -968,7 +984,7 @@ def build_series(params):
     return cb.Loft.from_series(faces)
 
 
-_reg(Ent("series", "op", series_params(), build_series, quick=40,
+_reg(Ent("series", "op", series_params(), build_series, quick=30,
          labels=lambda p: ["side=arc" if len(p["faces"]) == 3 else "side=spline"]))
 
 
@@ -988,7 +1004,7 @@ def realize_sketch(sk, M, aux):
     return [cb.Loft(f, cb.Face(rm.apply(M, t))) for f, t in zip(faces, aux["tops"])]
 
 
-def _sk(name, strategy, build, quick=14, curved=lambda p: True, labels=lambda p: []):
+def _sk(name, strategy, build, quick=12, curved=lambda p: True, labels=lambda p: []):
     _reg(Ent(name, "sketch", strategy, build, realize_sketch, prep_sketch, curved=curved, quick=quick, labels=labels))
 
 
@@ -1015,7 +1031,7 @@ def _disk(cls):
 
 
 for _n, _c in [("onecore", cb.OneCoreDisk), ("quarter", QuarterDisk), ("half", cb.HalfDisk), ("fourcore", cb.FourCoreDisk)]:
-    _sk(f"sk-{_n}", disk_params(), _disk(_c), quick={"fourcore": 8, "half": 10}.get(_n, 14))
+    _sk(f"sk-{_n}", disk_params(), _disk(_c), quick={"fourcore": 6, "half": 8}.get(_n, 12))
 
 
 @st.composite
@@ -1030,7 +1046,7 @@ def build_wrapped(p):
     return cb.WrappedDisk(fr.p([0, 0, 0]), corner, radius, fr.d([0, 0, 1]) * p["nmag"])
 
 
-_sk("sk-wrapped", wrapped_params(), build_wrapped, quick=10)
+_sk("sk-wrapped", wrapped_params(), build_wrapped, quick=8)
 
 
 @st.composite
@@ -1043,7 +1059,7 @@ def build_oval(p):
     return cb.Oval(fr.p([0, 0, 0]), fr.p([p["l"], 0, 0]), fr.d([0, 0, 1]), p["r"] * fr.s)
 
 
-_sk("sk-oval", oval_params(), build_oval, quick=7)
+_sk("sk-oval", oval_params(), build_oval, quick=5)
 
 
 @st.composite
@@ -1058,7 +1074,7 @@ def build_annulus(p):
     return Annulus(fr.p([0, 0, 0]), fr.p([p["r"], 0, 0]), fr.d([0, 0, 1]), p["ri"] * p["r"] * fr.s, p["n"])
 
 
-_sk("sk-annulus", annulus_params(), build_annulus, quick=10)
+_sk("sk-annulus", annulus_params(), build_annulus, quick=8)
 
 
 @st.composite
@@ -1114,15 +1130,15 @@ def _sround(cls, ring):
 
 for _n, _c, _r in [("qsdisk", cb.QuarterSplineDisk, False), ("hsdisk", cb.HalfSplineDisk, False), ("sdisk", cb.SplineDisk, False),
                    ("qsring", cb.QuarterSplineRing, True), ("hsring", cb.HalfSplineRing, True), ("sring", cb.SplineRing, True)]:
-    _sk(f"sk-{_n}", sround_params(_r), _sround(_c, _r), quick=8 if _n in ("sdisk", "sring") else 12,
+    _sk(f"sk-{_n}", sround_params(_r), _sround(_c, _r), quick=6 if _n in ("sdisk", "sring") else 10,
         labels=lambda p: ["shape=" + p["shape"]])
 
 
 # ---- shapes --------------------------------------------------------------------------------------
 
 
-def _sh(name, strategy, build, quick=10, curved=lambda p: True, labels=lambda p: [], family="shape"):
-    _reg(Ent(name, family, strategy, build, curved=curved, quick=quick, labels=labels))
+def _sh(name, strategy, build, quick=8, curved=lambda p: True, labels=lambda p: [], family="shape"):
+    _reg(Ent(name, family, strategy, build, curved=curved, quick=quick, labels=labels, center_covariant=family != "joint"))
 
 
 @st.composite
@@ -1299,7 +1315,8 @@ def build_stack(p):
     end = [tr.Translation(fr.d(p["vec"]) * fr.s), tr.Rotation(fr.d([0, 0, 1]), 0.3, fr.p([0, 0, 0])), tr.Scaling(0.9, fr.p([0, 0, 0]))]
     mid = None
     if kind == "transformed-mid":
-        mid = [tr.Translation(fr.d(p["vec"]) * fr.s * 0.5 + fr.d([0.2, 0, 0]) * fr.s)]
+        mid = [tr.Translation(fr.d(p["vec"]) * fr.s * 0.5 + fr.d([0.2, 0, 0]) * fr.s), tr.Rotation(fr.d([0, 0, 1]), 0.15, fr.p([0, 0, 0])),
+               tr.Scaling(0.95, fr.p([0, 0, 0]))]
     return cb.TransformedStack(sk, end, p["repeats"], mid)
 
 
@@ -1321,6 +1338,6 @@ def _joint(cls):
     return build
 
 
-_sh("ljoint", joint_params([2]), _joint(cb.LJoint), quick=4, family="joint")
-_sh("tjoint", joint_params([3]), _joint(cb.TJoint), quick=3, family="joint")
-_sh("njoint", joint_params([3, 4, 5]), _joint(cb.NJoint), quick=3, family="joint", labels=lambda p: [f"branches={p['branches']}"])
+_sh("ljoint", joint_params([2]), _joint(cb.LJoint), quick=3, family="joint")
+_sh("tjoint", joint_params([3]), _joint(cb.TJoint), quick=2, family="joint")
+_sh("njoint", joint_params([3, 4, 5]), _joint(cb.NJoint), quick=2, family="joint", labels=lambda p: [f"branches={p['branches']}"])
